@@ -197,7 +197,7 @@ def main(argv=None):
     jobs = [(prop, i, a.tier) for i in idx]
     sjobs = [(prop, i) for i, (n, _f) in enumerate(STRUCTURAL.get(prop, [])) if not a.only or a.only in n]
     with ctx.Pool(max(1, min(a.jobs, len(jobs) + len(sjobs) or 1))) as pool:
-        r1 = pool.map_async(_run_contract, jobs, chunksize=1)
+        r1s = [pool.apply_async(_run_contract, (j,)) for j in jobs]
         r2 = pool.map_async(_run_structural, sjobs, chunksize=1)
         r3 = pool.map_async(_run_conformance, [0] if not os.environ.get("VERIF_NO_CONFORMANCE") else [], chunksize=1)
         # bounded stand-ins run concurrently under the native interpreter
@@ -215,7 +215,22 @@ def main(argv=None):
                 r = {"label": label, "script": script, "error": str(e)[-2000:], "violations": [], "cases": 0}
             r["wall_s"] = round(time.time() - tb, 2)
             bres.append(r)
-        reports = r1.get() + r2.get()
+        # watchdog: a contract whose solver call never returns (z3 does not always honour its
+        # timeout inside the sequence theory) must not hang the check: exit 3, never a violation
+        deadline = time.time() + float(os.environ.get("VERIF_WATCHDOG_S", 2700 if a.tier == "quick" else 6 * 3600))
+        reports, hung = [], []
+        for j, r in zip(jobs, r1s):
+            try:
+                reports.append(r.get(timeout=max(1.0, deadline - time.time())))
+            except mp.TimeoutError:
+                hung.append(cdefs[j[1]].ident)
+        if hung:
+            pool.terminate()
+            for h in hung:
+                print(f"CHECKER-ERROR {h}: watchdog: no result within the time budget (solver call did not return)")
+            print(f"{prop}: checker error (watchdog), {len(hung)} contract(s) unfinished")
+            return 3
+        reports = reports + r2.get()
         conf = (r3.get() or [None])[0]
 
     findings = load_findings()
